@@ -11,6 +11,12 @@
   cfg.scriptCache   the `cache=` keyword of Script.__init__'s parse_and_get_code call
   cfg.diffCache     the `diff_cache=` keyword (settings.fast_parser)
   cfg.validity      settings.call_signatures_validity
+  cfg.treeMemo      where Script.__init__ takes self._module_node from: 0 = the one unconditional
+                    statement `self._module_node, code = self._inference_state.parse_and_get_code(...)`
+                    (parso is asked on every construction and its answer is the Script's tree).  Any
+                    other shape (a second assignment, an assignment under if/try/loop, a value that is
+                    not the call) is not modelled: TieBroken, the Lean side is built with the value of
+                    the unchanged code (FALLBACK) so that correspondence and oracle still run.
 """
 import ast
 from translator.extract import Src, TieBroken, u, lean_bool
@@ -23,6 +29,32 @@ def _subscript_bases(fn, dict_name):
         if isinstance(n, ast.Subscript) and u(n.value) == dict_name:
             out.append(u(n.slice))
     return out
+
+
+FALLBACK = {'treeMemo': 0}
+
+
+def tree_source(api, sinit, call):
+    """0 when Script.__init__ gets its module node from parso, unconditionally, every time"""
+    stores = [n for n in ast.walk(api.tree) if isinstance(n, ast.Attribute) and n.attr == '_module_node'
+              and isinstance(n.ctx, (ast.Store, ast.Del))]
+    in_init = [n for n in ast.walk(sinit) if isinstance(n, ast.Attribute) and n.attr == '_module_node'
+               and isinstance(n.ctx, (ast.Store, ast.Del))]
+    if len(stores) != 1 or len(in_init) != 1:
+        raise TieBroken('jedi/api/__init__.py: _module_node is assigned in %d places (%d in Script.__init__), '
+                        'model knows exactly one' % (len(stores), len(in_init)),
+                        'the tree of a Script must be the answer parso gives for this construction')
+    top = [st for st in sinit.body if isinstance(st, ast.Assign) and any(
+        n is in_init[0] for t in st.targets for n in ast.walk(t))]
+    if len(top) != 1:
+        raise TieBroken('Script.__init__: self._module_node is not assigned by an unconditional statement of '
+                        'the function body', 'assigned under if/try/loop/with')
+    st = top[0]
+    tgt = st.targets[0]
+    if not (len(st.targets) == 1 and isinstance(tgt, ast.Tuple) and [u(e) for e in tgt.elts] ==
+            ['self._module_node', 'code'] and st.value is call):
+        raise TieBroken('Script.__init__: self._module_node is not taken from parse_and_get_code', u(st)[:300])
+    return 0
 
 
 def generate(repo, g):
@@ -148,12 +180,21 @@ def generate(repo, g):
         raise TieBroken('Script.__init__: parse_and_get_code(code=, path=)', repr(kw))
     clears = any(isinstance(n, ast.Call) and u(n.func) == 'cache.clear_time_caches' and not n.args
                  and not n.keywords for n in ast.walk(sinit))
+    # ---- where the Script's tree comes from (a tie broken here is raised after the definitions, so
+    # that the other decisions are still the extracted ones)
+    deferred = None
+    try:
+        tree_memo = tree_source(api, sinit, calls[0])
+    except TieBroken as e:
+        deferred = e
+        tree_memo = FALLBACK['treeMemo']
 
     g.define('cfg', 'JediModel.Caches.Cfg',
              '{ keyOnTree := %s, sigKeyFresh := %s, sigCachesUnmatched := %s, memoPerScript := %s, scriptCache := %s, '
-             'diffCache := %s, validity := %d }' % (
+             'diffCache := %s, validity := %d, treeMemo := %d }' % (
                  lean_bool(key_on_tree), lean_bool(sig_fresh), lean_bool(caches_unmatched), lean_bool(memo_per_script),
-                 lean_bool(script_cache), lean_bool(diff_cache), int(validity)),
+                 lean_bool(script_cache), lean_bool(diff_cache), int(validity), tree_memo),
+             ('FALLBACK for treeMemo (source shape not recognised): value of the unchanged code; ' if deferred else '') +
              'filters._get_definition_names, parser_utils.get_parso_cache_node/_get_parent_scope_cache, '
              'helpers.cache_signatures, InferenceState.__init__, Script.__init__, settings')
     g.define('clearsTimeCaches', 'Bool', lean_bool(clears), 'jedi/api/__init__.py:Script.__init__')
@@ -164,3 +205,8 @@ def generate(repo, g):
                  (inf, 'InferenceState.__init__'), (inf, 'InferenceState.parse_and_get_code'),
                  (cache, 'clear_time_caches'), (cache, 'signature_time_cache'), (cache, 'memoize_method')]:
         g.fp(s, d)
+    if deferred is not None:
+        import os
+        from translator.extract import GEN_DIR, write_if_changed
+        write_if_changed(os.path.join(GEN_DIR, g.pid + '.lean'), g.text())
+        raise deferred
